@@ -160,6 +160,12 @@ Theorem C18_model_meets_spec_map :
   model_slice ty fn unroll 0 lanes xs = spec_slice ty fn unroll 0 lanes xs.
 Proof. exact model_meets_spec_map. Qed.
 
+(* F52 (known finding, see docs/C18.md): the oracle rejects what is observed for
+   to_int_trunc(4294967296.0): generic i32::MAX, AVX2 / AVX-512 0x80000000 *)
+Theorem C18_F52_witness :
+  exists c, c = CFlt 17 1333788672 0 0 [2147483647; 2147483648; 2147483648]%Z None None /\ prop_ok c = false.
+Proof. eexists. split; [reflexivity|vm_compute; reflexivity]. Qed.
+
 (* ---- non-vacuity ---- *)
 Example C18_nonvacuous_map :
   simd_map 0%Z 4 (map (g_affine 0)) [100; -128; 3; 4; 5; 6]%Z = Done [45; -127; 10; 13; 16; 19]%Z
